@@ -50,10 +50,14 @@ func isOriginAllowed(origin string, allowOrigins []string) (string, bool) {
 				return origin, true
 			}
 
-			if strings.Contains(allowedURL.Host, "*") {
-				pattern := strings.ReplaceAll(allowedURL.Host, "*.", "(.*\\.)?")
+			// the wildcard stands for parts of the host name only:
+			// scheme and port must be the same
+			if allowedURL.Scheme == originURL.Scheme &&
+				allowedURL.Port() == originURL.Port() &&
+				strings.Contains(allowedURL.Hostname(), "*") {
+				pattern := strings.ReplaceAll(allowedURL.Hostname(), "*.", "(.*\\.)?")
 				pattern = strings.ReplaceAll(pattern, "*", ".*")
-				matched, errMatched := regexp.MatchString("^"+pattern+"$", originURL.Host)
+				matched, errMatched := regexp.MatchString("^"+pattern+"$", originURL.Hostname())
 				if errMatched == nil && matched {
 					return origin, true
 				}
